@@ -13,7 +13,48 @@ pub struct HlSet {
     pub l: L,
     pub titles: Titles,
     pub queries: Vec<String>,
+    /// queries are derived from each title instead of taken from `queries`
+    pub derived: bool,
     pub block: u64,
+}
+
+impl HlSet {
+    pub fn queries_for(&self, title: &str) -> std::borrow::Cow<'_, [String]> {
+        if self.derived {
+            std::borrow::Cow::Owned(derived_queries(self.l, title))
+        } else {
+            std::borrow::Cow::Borrowed(&self.queries[..])
+        }
+    }
+}
+
+/// Queries a user could type for this title: every prefix of every word, each word finished, the whole
+/// title, adjacent words run together and swapped, each longer word with its second letter dropped, and
+/// the empty query.
+pub fn derived_queries(l: L, title: &str) -> Vec<String> {
+    let mut out: Vec<String> = vec![String::new(), title.to_string()];
+    let Some(t) = tok_record(l, title) else { return out };
+    let words: Vec<String> = t.words.iter().map(|w| t.source[w.slice.0..w.slice.1].iter().filter(|c| **c != '\0').collect()).collect();
+    for (i, w) in words.iter().enumerate() {
+        let cs: Vec<char> = w.chars().collect();
+        for k in 1..=cs.len() {
+            out.push(cs[..k].iter().collect());
+        }
+        out.push(format!("{} ", w));
+        if cs.len() >= 5 {
+            let mut v = cs.clone();
+            v.remove(1);
+            out.push(v.iter().collect());
+        }
+        if i + 1 < words.len() {
+            out.push(format!("{}{}", w, words[i + 1]));
+            out.push(format!("{} {}", words[i + 1], w));
+            out.push(format!("{} {}", w, &words[i + 1].chars().take(2).collect::<String>()));
+        }
+    }
+    out.sort();
+    out.dedup();
+    out
 }
 
 pub struct Bounds {
@@ -21,6 +62,8 @@ pub struct Bounds {
     pub q: u32,
     pub words: u32,
     pub fams: Vec<u8>,
+    /// real long titles (e-commerce corpus, plain and decorated with accents / odd characters) with derived queries
+    pub corpus: bool,
 }
 
 pub fn hl_sets(b: &Bounds) -> Vec<HlSet> {
@@ -40,13 +83,24 @@ pub fn hl_sets(b: &Bounds) -> Vec<HlSet> {
             let (t, q) = (b.t - shrink, b.q - shrink.min(b.q - 1));
             let queries = all_strings(&fam, 0, q);
             let nq = queries.len() as u64;
-            sets.push(HlSet { name: format!("{}:T<={}xQ<={}", name, t, q), l, titles: Titles::Chars { fam, lo: 0, hi: t }, queries, block: (100_000 / nq.max(1)).clamp(1, 2000) });
+            sets.push(HlSet { name: format!("{}:T<={}xQ<={}", name, t, q), l, titles: Titles::Chars { fam, lo: 0, hi: t }, queries, derived: false, block: (100_000 / nq.max(1)).clamp(1, 2000) });
         }
         if b.words > 0 {
             let lex = lex_strings(l);
             let queries = word_queries(&lex, 2);
             let nq = queries.len() as u64;
-            sets.push(HlSet { name: format!("lexicon:T<={}w x Q<=2w(all prefixes)", b.words), l, titles: Titles::Words { lex, maxw: b.words }, queries, block: (100_000 / nq.max(1)).clamp(1, 2000) });
+            sets.push(HlSet { name: format!("lexicon:T<={}w x Q<=2w(all prefixes)", b.words), l, titles: Titles::Words { lex, maxw: b.words }, queries, derived: false, block: (100_000 / nq.max(1)).clamp(1, 2000) });
+        }
+    }
+    if b.corpus {
+        let titles = corpus_ecommerce_titles();
+        for l in LANGS {
+            let mut v = Vec::with_capacity(titles.len() * 2);
+            for (i, t) in titles.iter().enumerate() {
+                v.push(t.clone());
+                v.push(super::c15::decorate(l, t, 1 + (i as u64 % 3)));
+            }
+            sets.push(HlSet { name: "e-commerce titles (plain + decorated) x derived queries".into(), l, titles: Titles::List(v), queries: Vec::new(), derived: true, block: 200 });
         }
     }
     sets
